@@ -41,6 +41,26 @@ class PageFeatureProcessor:
         if page_df_height == 0:
             return page_attrs
 
+        # Cut every multi-row attribute to the rows of this page, so that the
+        # page-relative lookups done while rendering address the original rows.
+        row_start = getattr(page, "row_start", 0)
+        if row_start:
+            for attr_name in type(page_attrs).model_fields:
+                val = getattr(page_attrs, attr_name, None)
+                if (
+                    isinstance(val, (list, tuple))
+                    and len(val) > 1
+                    and all(isinstance(row, (list, tuple)) for row in val)
+                ):
+                    setattr(
+                        page_attrs,
+                        attr_name,
+                        [
+                            list(val[(row_start + k) % len(val)])
+                            for k in range(page_df_height)
+                        ],
+                    )
+
         # Clear border_first and border_last from being broadcast to all rows
         if hasattr(page_attrs, "border_first") and page_attrs.border_first:
             page_attrs.border_first = None
